@@ -81,9 +81,17 @@ type Fault struct {
 	Path string `json:"path"`
 	K    int    `json:"k"`    // 1-based occurrence of (op,path) in the run
 	Kind string `json:"kind"` // perm | notexist | eio | eio-partial (read only)
+	// Sticky: the fault persists - every occurrence >= K fails (a bad block, a revoked
+	// permission), not only the K-th.
+	Sticky bool `json:"sticky,omitempty"`
 }
 
-func (f Fault) Site() string { return fmt.Sprintf("%s|%s|%d", f.Op, f.Path, f.K) }
+func (f Fault) Site() string {
+	if f.Sticky {
+		return fmt.Sprintf("%s|%s|%d+", f.Op, f.Path, f.K)
+	}
+	return fmt.Sprintf("%s|%s|%d", f.Op, f.Path, f.K)
+}
 
 // DiskPlan is every decision the simulated disk takes during a run.
 type DiskPlan struct {
@@ -143,7 +151,7 @@ func (s *SimFS) fault(op, p string) *Fault {
 	k := s.Rec.Occurrence(op, s.lp(p))
 	for i := range s.Plan.Faults {
 		f := &s.Plan.Faults[i]
-		if f.Op == op && f.Path == s.lp(p) && f.K == k {
+		if f.Op == op && f.Path == s.lp(p) && (f.K == k || (f.Sticky && k > f.K)) {
 			s.Fired[f.Site()]++
 			return f
 		}
